@@ -5,13 +5,17 @@
    every reachable state ([WF]: buffer of 2*depth frames, idx <= depth), and the exact-arithmetic
    clauses over Coq's reals with the true sin, cos and PI.
    NOT proved (tested numerically by lib/props/c18.py and reported as tested): the 1e-12 bound with
-   glibc's sin/cos and the rounded PI, linearity "within rounding" and finiteness in IEEE arithmetic,
-   "constant input within 1 % once primed for depth >= 4". *)
+   glibc's sin/cos and the rounded PI, linearity "within rounding" and finiteness in IEEE arithmetic.
+   "Constant input within 1 % once primed for depth >= 4" is PROVED on exact reals (true sin, cos, PI) for
+   depths 4 .. 16 (c18_constant_1pct_small_depths: closed form of the model's interpolate on a constant
+   buffer, then Interval on the 2*depth Hann-windowed sinc weights, one lemma per depth); for depth > 16
+   and for the rounded evaluation with libm it stays numeric. *)
 Require Import Floats.SpecFloat.
 Require Import Reals List Arith ZArith.
 From Flocq Require Import Core BinarySingleNaN.
 From Dasp Require Import Base.Res Base.ListX Base.Float Ring.Bounded Ring.Fixed Ring.FixedSpec
-  Dsp.Sinc Dsp.SincProofs Dsp.SincR Dsp.SincRProofs Dsp.SincRun Dsp.SincExamples.
+  Dsp.Sinc Dsp.SincProofs Dsp.SincR Dsp.SincRProofs Dsp.SincRun Dsp.SincExamples
+  Dsp.SincConst Dsp.SincKernelBound Dsp.SincConstExamples.
 Import ListNotations.
 Open Scope nat_scope.
 
@@ -105,6 +109,26 @@ Theorem c18_linear : forall (sin_o cos_o : R -> R) (ch : nat) (a b : R) (d : nat
                 interpolate NumR sin_o cos_o FmtR ch (lin_sinc a b sF sG) x = Ok (lin_frame a b rF rG).
 Proof. exact interpolate_linear. Qed.
 Print Assumptions c18_linear.
+
+(* a constant input (reals, true sin/cos/PI, ANY depth >= 1, any position x): once primed (idx = depth), with
+   every buffered frame equal to (c, ..., c), the model's interpolate returns c * ksum on every channel, where
+   ksum d x is the sum, in the order of the fold, of the 2*depth weights of Dsp/Sinc.v's [weight] at the tap
+   arguments PI*(x + n) and PI*((1 - x) + n), n = 0 .. depth-1 *)
+Theorem c18_constant_weight_sum : forall (ch d : nat) (s : sinc NumR FmtR) (c x : R),
+  WF NumR FmtR ch d s -> idx s = d -> (forall fr, In fr (fdata (frames s)) -> fr = repeat c ch) ->
+  interpolate NumR sin cos FmtR ch s x = Ok (repeat (c * ksum d x)%R ch).
+Proof. exact interpolate_const. Qed.
+Print Assumptions c18_constant_weight_sum.
+
+(* ... and for depth 4 .. 16 that sum is within 1/100 of 1 at every fractional position: a constant input is
+   reproduced within 1 % (of |c|, on every channel) once the buffer is primed.  x = 0 is exact (c18_grid). *)
+Theorem c18_constant_1pct_small_depths : forall (ch d : nat) (s : sinc NumR FmtR) (c x : R),
+  4 <= d <= 16 -> WF NumR FmtR ch d s -> idx s = d ->
+  (forall fr, In fr (fdata (frames s)) -> fr = repeat c ch) -> (0 <= x < 1)%R ->
+  exists fr, interpolate NumR sin cos FmtR ch s x = Ok fr /\ length fr = ch /\
+             Forall (fun y => Rabs (y - c) <= 1 / 100 * Rabs c)%R fr.
+Proof. exact constant_1pct_small_depths. Qed.
+Print Assumptions c18_constant_1pct_small_depths.
 
 (* known finding K5: on i16 frames the accumulation can overflow (witness: depth 2, frames
    -32768 -32768 32767 32767, x = 0.5) ... *)
